@@ -154,11 +154,13 @@ def obs_events(chk):
         for dt in ('real', 'complex'):
             N = int(rng.choice([32, 64, 128]))
             x = zoo.signal(rng, N, dt == 'complex', 'arma')
-            nfft = int(rng.choice([64, 65, 128]))
+            nfft = [65, 64, 128][rep % 3] if rep < 3 else int(rng.choice([64, 65, 128]))
             sampling = [4.0, 0.5, 1.0][rep % 3] if rep < 3 else float(rng.choice([1.0, 4.0, 0.5]))
+            # ARMA orders on both sides of P = Q (more MA than AR coefficients included)
+            pq = [(3, 3), (2, 4), (4, 2)][rep % 3]
             for name in ('pburg', 'pyule', 'pcovar', 'pmodcovar', 'parma', 'pma'):
                 ev = {'ev': 'class', 'cls': name, 'dt': dt, 'nfft': nfft}
-                ok, obj = call_guard(zoo.build, name, x.copy(), nfft, sampling)
+                ok, obj = call_guard(zoo.build, name, x.copy(), nfft, sampling, False, P=pq[0], Q=pq[1])
                 if ok:
                     ok, psd = call_guard(lambda: np.array(obj.psd))
                 ev['raised'] = not ok
